@@ -83,6 +83,34 @@ theorem foldl_runs_eq (rs : List (Cfg × List (Stage σ) × σ)) (l : List (HRec
     rw [pushSeq_eq, lastN_append_lastN, ih]
     simp
 
+/-! ### statistics -/
+
+theorem foldl_statsStep (cs : List (Call σ)) (s : Stats) :
+    (cs.foldl statsStep s).runs = s.runs + cs.length ∧
+    (cs.foldl statsStep s).ok = s.ok + (cs.filter fun c => callSucceeded c == some true).length ∧
+    (cs.foldl statsStep s).bad = s.bad + (cs.filter fun c => callSucceeded c == some false).length := by
+  induction cs generalizing s with
+  | nil => simp
+  | cons c cs ih =>
+    simp only [List.foldl_cons, List.length_cons, List.filter_cons]
+    obtain ⟨h1, h2, h3⟩ := ih (statsStep s c)
+    rw [h1, h2, h3]
+    unfold statsStep
+    cases hc : callSucceeded c with
+    | none => simp; omega
+    | some b => cases b <;> simp <;> omega
+
+theorem ok_bad_le (cs : List (Call σ)) :
+    (cs.filter fun c => callSucceeded c == some true).length +
+      (cs.filter fun c => callSucceeded c == some false).length ≤ cs.length := by
+  induction cs with
+  | nil => simp
+  | cons c cs ih =>
+    simp only [List.filter_cons, List.length_cons]
+    cases hc : callSucceeded c with
+    | none => simp; omega
+    | some b => cases b <;> simp <;> omega
+
 /-! ### the call sequence with the observer's notifications in place -/
 
 theorem filterMap_cb_stepNotes (cfg : Cfg) (obs : Option StageObs) (i : Nat) (s : Stage σ) (a : Acc σ) :
@@ -190,6 +218,16 @@ def histAgrees (f : List Nat × Nat × Nat × Bool × Bool × List (Int × List 
   f.2.2.2.2.2.1.all (fun kl => getHistory (List.range 5) kl.1 == kl.2) &&
   f.2.2.2.2.2.1.map (·.1) == (List.range 15).map (fun (k : Nat) => Int.ofNat k - 7) &&
   f.2.2.2.2.2.2 == (getHistory (List.range 105) histDefault).length
+
+/-- do the counters of the model reproduce `get_statistics()` of the real cascades driven for `histFacts`
+    (1005 runs + a fork + a run, all successful; one run whose completion observer raised; one fork of an empty cascade)? -/
+def statsAgrees (f : List (Nat × Nat × Nat)) : Bool :=
+  let idStage : Stage Nat := ⟨none, fun x => .ok x, none, true, 1⟩
+  let cfg : Cfg := ⟨true, 100⟩
+  let show_ (s : Stats) : Nat × Nat × Nat := (s.runs, s.ok, s.bad)
+  f == [show_ (statsAfter (((List.range 1005).map fun i => Call.run cfg [idStage] i) ++ [.prun [idStage] 7, .run cfg [idStage] 9])),
+        show_ (statsAfter [Call.run cfg ([] : List (Stage Nat)) 1]),
+        show_ (statsAfter [Call.prun ([] : List (Stage Nat)) 1])]
 
 /-- does `agentStage` reproduce what `add_agent_stage` registered? -/
 def agentAgrees (f : List Bool × Nat × Nat) : Bool :=
